@@ -38,6 +38,7 @@ from ..errors import (JSONWizardError,
                       UnknownKeysError)
 from ..loader_selection import fromdict, get_loader
 from ..log import LOG
+from .._verif import yp as _yp  # verification hook H2 (no-op by default)
 from ..type_def import DefFactory, JSONObject, NoneType, PyLiteralString, T
 # noinspection PyProtectedMember
 from ..utils.dataclass_compat import _set_new_attribute
@@ -953,6 +954,7 @@ def load_func_for_dataclass(
         base_meta_cls: type = AbstractMeta,
 ) -> Callable[[JSONObject], T] | None:
 
+    _yp('v1_load.gen')
     # Tuple describing the fields of this dataclass.
     fields = dataclass_fields(cls)
 
@@ -1033,6 +1035,7 @@ def load_func_for_dataclass(
     auto_key_case = key_case is KeyCase.AUTO
 
     field_to_aliases = v1_dataclass_field_to_alias(cls)
+    _yp('v1_load.aliases_read')
     check_aliases = True if field_to_aliases else False
 
     field_to_paths = DATACLASS_FIELD_TO_ALIAS_PATH_FOR_LOAD[cls]
@@ -1297,6 +1300,7 @@ def load_func_for_dataclass(
         functions = fn_gen.create_functions(_globals)
 
         cls_fromdict = functions[fn_name]
+        _yp('v1_load.setattr')
 
         # Check if the class has a `from_dict`, and it's
         # a class method bound to `fromdict`.
@@ -1313,6 +1317,7 @@ def load_func_for_dataclass(
             cls_name, PACKAGE_NAME, fn_name)
 
         # TODO in `v1`, we will use class attribute (set above) instead.
+        _yp('v1_load.store')
         CLASS_TO_LOAD_FUNC[cls] = cls_fromdict
 
         return cls_fromdict
